@@ -33,6 +33,9 @@ CURATED = [
     "Struct('hdr'/Struct('count'/Rebuild(Byte, len_(this._.items)), 'x'/Byte), 'items'/Array(this.hdr.count, Byte), 't'/Byte)",
     "Struct('n'/Rebuild(Byte, len_(this.d)), 'd'/Bytes(this.n), 't'/Byte)", "Sequence('n'/Rebuild(Byte, 2), 'd'/Bytes(this.n))",
     "Struct('d'/Default(Byte, 7), 'e'/Bytes(this.d & 1))", "Struct('c'/Const(b'ab'), 'v'/Const(513, Int16ul), 'z'/Byte)",
+    # constants over framing sub-constructs, and constants supplied with another value (refused by both)
+    "Struct('c'/Const(b'ab', Prefixed(Byte, GreedyBytes)), 'x'/Byte)", "Struct('c'/Const(b'ab', NullTerminated(GreedyBytes)), 'x'/Byte)", "Struct('c'/Const(b'ab', Padded(3, Bytes(2))), 'x'/Byte)",
+    "Struct('magic'/Const(b'MZ'), 'ver'/Const(7, Byte), 'x'/Byte)", "Struct('ver'/Const(258, Int16ub), 'x'/Byte)", "Struct('magic'/Const(b'M'), 'x'/Byte)", "Sequence(Const(b'M'), Byte)",
     "FocusedSeq('b', 'a'/Const(b'!'), 'b'/Int16ub, 'c'/If(this._building, Byte))", "FocusedSeq('b', 'a'/Byte, 'b'/Bytes(this.a & 3), 'c'/If(this._parsing, Byte))",
     "Struct('f'/FocusedSeq('x', 'x'/Byte, 'y'/If(this._building, Const(b'B')), 'z'/If(this._parsing, Const(b'\\x00'))), 't'/Byte)",
     "Struct('a'/Byte, 'b'/If(this._parsing, Byte), 'c'/If(this._building, Const(b'!')), 'd'/Struct('e'/If(this._._parsing, Byte)))",
@@ -222,6 +225,9 @@ def harness(ctx, C, p):
             for k in list(stale):
                 if k in ("n", "count", "d", "c") and type(stale[k]).__name__ in ("int", "SymInt"):
                     stale[k] = stale[k] + 1          # stale derived value: Rebuild/Computed members must override it in both
+            for k in ("magic", "ver"):
+                if k in stale:
+                    stale[k] = b"AB" if type(stale[k]).__name__ in ("bytes", "SymBytes", "CBytes") else stale[k] + 1      # a constant supplied with another value
             if isinstance(stale.get("hdr"), dict):
                 h = dict(stale["hdr"])
                 h["count"] = 200
